@@ -22,10 +22,10 @@ abbrev Panel := List Inst
 inductive Err | value | type | index | attr | notimpl | other
   deriving DecidableEq, Repr
 
-/-- How the caller stored the cells.  `check_X(coerce_to_pandas=True)` turns a 3-D array into
-Series cells but leaves a nested DataFrame with ndarray cells as it is. -/
-inductive CellKind | series | array | numpy3d
-  deriving DecidableEq, Repr
+/- How the caller stored the cells (nested frame with pd.Series cells, nested frame with np.ndarray
+cells, 3-D array) makes no difference to any transformer modelled here (since the fix
+"padding, truncation and interpolation accept nested frames with ndarray cells"): the harness varies
+the container, the model is the same. -/
 
 /-- `check_X`: at least one instance, at least one column (`X.shape`). -/
 def checkX (X : Panel) : Except Err Unit :=
@@ -58,21 +58,20 @@ def padFit (padLength : Option Int) (X : Panel) : Except Err Int := do
   | none => pure (maxLength X : Int)
   | some p => pure p
 
-/-- `_create_pad`: `out = np.full(L, fill); out[:len(series)] = series` -/
+/-- `_create_pad`: `out = np.full(L, fill); out[:len(series)] = np.asarray(series)` -/
 def createPad (L : Nat) (fill : Rat) (c : Cell) : Cell :=
   c ++ (List.replicate L fill).drop c.length
 
 /-- `transform` given the fitted `pad_length_` -/
-def padTransform (kind : CellKind) (L : Int) (fill : Rat) (X : Panel) : Except Err Panel := do
+def padTransform (L : Int) (fill : Rat) (X : Panel) : Except Err Panel := do
   checkX X
   if (maxLength X : Int) > L then .error .value
-  else if kind = .array then .error .attr        -- `series.iloc` on an ndarray cell
   else pure (X.map (fun inst => inst.map (createPad L.toNat fill)))
 
 /-- `PaddingTransformer(pad_length, fill_value).fit(Xfit).transform(X)` -/
-def pad (kind : CellKind) (padLength : Option Int) (fill : Rat) (Xfit X : Panel) : Except Err Panel := do
+def pad (padLength : Option Int) (fill : Rat) (Xfit X : Panel) : Except Err Panel := do
   let L ← padFit padLength Xfit
-  padTransform kind L fill X
+  padTransform L fill X
 
 /-! ### TruncationTransformer -/
 
@@ -98,16 +97,15 @@ def truncIdxs (lo : Int) (upper : Option Int) : List Int :=
   | none => arange 0 lo
   | some u => arange lo u
 
-def truncTransform (kind : CellKind) (lo : Int) (upper : Option Int) (X : Panel) : Except Err Panel := do
+def truncTransform (lo : Int) (upper : Option Int) (X : Panel) : Except Err Panel := do
   checkX X
   if (minLength X : Int) < lo then .error .value
-  else if kind = .array then .error .attr
   else X.mapM (fun inst => inst.mapM (fun c => ilocList c (truncIdxs lo upper)))
 
 /-- `TruncationTransformer(lower, upper).fit(Xfit).transform(X)` -/
-def truncate (kind : CellKind) (lower upper : Option Int) (Xfit X : Panel) : Except Err Panel := do
+def truncate (lower upper : Option Int) (Xfit X : Panel) : Except Err Panel := do
   let lo ← truncFit lower Xfit
-  truncTransform kind lo upper X
+  truncTransform lo upper X
 
 /-! ### Tabularizer / ColumnConcatenator -/
 
